@@ -8,4 +8,8 @@ package main
 
 import "verifharness/lib"
 
-func main() { lib.Main() }
+func main() {
+	raceSetup()
+	lib.Main()
+	raceFinish()
+}
